@@ -314,7 +314,45 @@ fn gen_prog(rng: &mut TestRng, i: usize, which: Which) -> ChainProg {
         nestings.extend(g.nest_log.iter().cloned());
         branches.push(ChainBranch { locals, init_ty: init_ty.clone(), init_text: init_text.clone(), ops, fin });
     }
-    ChainProg { fam, mac: mac.to_string(), branches, nestings }
+    // C17: a handler whose body is a nested macro invocation over the results
+    let mut handler: Option<(String, String)> = None;
+    if which == Which::C17 && rb(rng, 0.4) {
+        // unwrapped value types the handler receives
+        let arg_tys: Vec<Ty> = branches
+            .iter()
+            .map(|b| match (&b.fin, kind.is_try) {
+                (Ty::Opt(t), true) | (Ty::Res(t), true) => (**t).clone(),
+                (t, _) => t.clone(),
+            })
+            .collect();
+        let all_plain = arg_tys.iter().all(|t| !matches!(t, Ty::Iter(_) | Ty::Ref(_) | Ty::Fut(_) | Ty::Stream(_)));
+        if all_plain {
+            // fold the arguments into nested pairs
+            let mut tup_ty = arg_tys[0].clone();
+            let mut tup_text = "a0".to_string();
+            for (i, t) in arg_tys.iter().enumerate().skip(1) {
+                tup_ty = Ty::Tup(Box::new(tup_ty), Box::new(t.clone()));
+                tup_text = format!("({}, a{})", tup_text, i);
+            }
+            let mut g = CG { rng, fam: Family::Sync, next: 0, base: 90_000, caps: 0.15, wrappers: 0.1, shapes: true, allow_deferred: false, spawn_async: true, depth: 0, force: None, forced_done: false, ck: 0.0, ns: 0.0, nest: 0.3, nest_depth: 0, nest_log: vec![] };
+            let try_res = branches.first().map(|b| matches!(b.fin, Ty::Res(_))).unwrap_or(false);
+            let (hkind, out_ty): (&str, Ty) = if !kind.is_try {
+                ("then", g.any_ty(1))
+            } else if rb(g.rng, 0.5) {
+                ("map", g.any_ty(1))
+            } else {
+                let inner = g.any_ty(1);
+                ("and_then", if try_res { Ty::Res(Box::new(inner)) } else { Ty::Opt(Box::new(inner)) })
+            };
+            let inv = g.nested_invocation(&tup_ty, &tup_text, &out_ty, "handler");
+            nestings.extend(g.nest_log.iter().cloned());
+            let params: Vec<String> = arg_tys.iter().enumerate().map(|(i, t)| format!("a{}: {}", i, t.name())).collect();
+            // async then / and_then handlers return a future that the macro awaits
+            let body = if kind.is_async && hkind != "map" { format!("ready({})", inv) } else { inv };
+            handler = Some((hkind.to_string(), format!("|{}| {{ {} }}", params.join(", "), body)));
+        }
+    }
+    ChainProg { fam, mac: mac.to_string(), branches, nestings, handler }
 }
 
 fn strategy(i: usize, which: Which) -> impl Strategy<Value = ChainProg> {
@@ -349,7 +387,10 @@ pub fn case_code(p: &ChainProg, idx: usize) -> (String, usize, usize, bool) {
     let kind = macro_kind(&p.mac);
     let fam = p.fam;
     let n = p.branches.len();
-    let body: Vec<String> = p.branches.iter().map(render_branch_macro).collect();
+    let mut body: Vec<String> = p.branches.iter().map(render_branch_macro).collect();
+    if let Some((k, text)) = &p.handler {
+        body.push(format!("{} => {}", k, text));
+    }
     let mut mac = String::new();
     mac.push_str(&format!("#[allow(unused, non_snake_case)]\nfn case_{}_mac() -> String {{\n    use jvrt::chainrt::*;\n", idx));
     for b in &p.branches {
@@ -430,6 +471,28 @@ pub fn case_code(p: &ChainProg, idx: usize) -> (String, usize, usize, bool) {
             acc = format!("{}.and_then(|{}| {})", names[i], names[i], acc);
         }
         acc
+    };
+    let result = match &p.handler {
+        None => result,
+        Some((k, text)) => {
+            let args = names.join(", ");
+            let tuple_pat = if n == 1 { names[0].clone() } else { format!("({})", names.join(", ")) };
+            let aw = if kind.is_async { ".await" } else { "" };
+            match k.as_str() {
+                // README: `then` acts as handler(result0, result1, ..)
+                "then" => format!("({})({}){}", text, args, aw),
+                // `map`: results.map(|(r0, r1, ..)| handler(r0, r1, ..))
+                "map" => format!("({}).map(|{}| ({})({}))", result, tuple_pat, text, args),
+                // `and_then`: results.and_then(|(r0, r1, ..)| handler(r0, r1, ..)); async: the handler's future is awaited
+                _ => {
+                    if kind.is_async {
+                        format!("match {} {{ Ok({}) => ({})({}).await, Err(e) => Err(e) }}", result, tuple_pat, text, args)
+                    } else {
+                        format!("({}).and_then(|{}| ({})({}))", result, tuple_pat, text, args)
+                    }
+                }
+            }
+        }
     };
     inner.push_str(&format!("    let __r = {};\n    format!(\"{{:?}}\", __r)\n", result));
     if kind.is_async {
@@ -581,7 +644,7 @@ pub fn run(id: &str, tier: &str, seed: u64) -> i32 {
     ev.rule = match which {
         Which::C01 => "programs: typed chains (random walk over i64 / usize / bool / () / Option / Result<_, i64> / Vec / tuples / iterators, nesting <= 3), 1-3 independent chains per invocation, length 1-8 plus closing; program i is forced to contain operator spelling i mod 22 and uses macro name i mod 12 (async macros: half sync chains closed with `-> ready`, half chains over real futures and streams - FutureExt / TryFutureExt / StreamExt / TryStreamExt methods incl. `^^>` of futures of futures and streams of streams, `->` receiving the future itself, `~` where a step ends in a future; `??` meaning `.inspect`); operands fully typed, in varied shapes (call returning a closure, typed closure, closure with return type, parenthesised, macro call, block capture), `~` at random positions in the non-try sync macros; inputs: 8 boundary seeds + proptest-free hash-derived seeds building the initial values (None / Err / empty and non-empty vectors included). Oracle: differential against the documented method chain with the same operand text compiled in the same binary - Debug of the result, ordered callback-invocation trace (per branch when branches run on threads), multiset of all events; the macro side not compiling while the reference side does is a violation, the reverse is a generator bug (exit 2). Non-trivial = >= 2 operators and >= 1 callback invoked on that input",
         Which::C10 => "chain stage: typed chains as in C01 (all 22 operator spellings forced in turn, all 12 macro names) with block captures on 35 % of the operands and the clone- and drop-counting value type `Ck` in half of the scalar positions (fold / try_fold initial values, iterator items, Option / Result payloads); oracle against the documented chain compiled in the same binary: equal multiset of evaluation events (every operand expression and capture once, every callback as often as the std method calls it - per element for iterator callbacks), equal number of clones of counted values, no counted value alive after the result is dropped. Non-trivial = >= 2 callbacks invoked and >= 1 capture",
-        Which::C17 => "nesting stage: typed chains under all 12 macro names in which 45 % of the callback operands are closures around a nested macro invocation (any of the 12 names, chosen by the type the operand must return; async ones driven by a no-op-waker poll loop), block captures that evaluate a nested invocation, and initial values that are macro invocations; nested bodies are generated by the same chain generator, recursively to depth 3 (wrappers, captures, further nestings inside). Oracle (metamorphic + differential): the outer macro against the documented chain with the same operand text - so every nested invocation is evaluated once inside a macro expansion and once in plain Rust - equal results, callback traces and event multisets. Non-trivial = >= 2 operators and >= 1 callback invoked; classes count nestings by place, inner macro and depth",
+        Which::C17 => "nesting stage: typed chains under all 12 macro names in which 45 % of the callback operands are closures around a nested macro invocation (any of the 12 names, chosen by the type the operand must return; async ones driven by a no-op-waker poll loop), block captures that evaluate a nested invocation, initial values that are macro invocations, and (40 % of the programs) a then / map / and_then handler whose body is a nested invocation over the results; nested bodies are generated by the same chain generator, recursively to depth 3 (wrappers, captures, further nestings inside). Oracle (metamorphic + differential): the outer macro against the documented chain with the same operand text - so every nested invocation is evaluated once inside a macro expansion and once in plain Rust - equal results, callback traces and event multisets. Non-trivial = >= 2 operators and >= 1 callback invoked; classes count nestings by place, inner macro and depth",
         Which::C19 => "bounds stage: typed chains under join! / try_join! / join_async! / try_join_async! with 1-7 branches whose values include `Ns` (holds an Rc: neither Send nor Clone) and `Mv` (move-only) in 60 % of the scalar positions, and half of whose branches borrow - shared (`&Vec` iterated) or mutably (`iter_mut` with a callback that changes the element in place) - from locals of the calling function; oracle: the macro side compiles whenever the documented chain compiles (a new Clone / Send / 'static requirement is a compile error on the macro side only) and both give the same result and callback traces. Non-trivial = >= 2 operators and >= 1 callback invoked",
         Which::C11 => "chain stage: typed chains in which program i is forced to contain hoistable operator i mod 18 (the 14 expression-operand operators, `^@` / `?^@` twice as often) with block operands on 60 % of the operand positions - both operands of fold / try_fold, operands inside nested wrappers, several per branch and step; oracle: per branch the sequence of capture evaluations equals the written (position) order, each exactly once. Non-trivial = >= 2 captures evaluated",
         Which::C02 => "programs: typed chains in which program i is forced to contain wrapper operator (i / 3) mod 10 with closing mode i mod 3 (explicit `<<<`, implicit at the end of a step, implicit at the end of the branch), nesting depth <= 3, inner chains of length 0-3 generated goal-directed for the type each wrapper needs (&T -> bool for ?> ?@ ?&!>, T -> Option for ?|> ?|>@ =>, E -> Result for <=, E -> E for !>, &W -> () for ??), inner block captures, operators after `<<<`; all 12 macro names; inputs and oracle as C01 with the reference `.x(|v| v inner...) rest`. Non-trivial = >= 2 operators and >= 1 callback invoked",
